@@ -34,8 +34,8 @@ template <class T,int index>
 static FixedArray<T>
 Color4Array_get(FixedArray<IMATH_NAMESPACE::Color4<T> > &ca)
 {    
-    return FixedArray<T>(&(ca.unchecked_index(0)[index]),
-                         ca.len(),4*ca.stride(),ca.handle(),ca.writable());
+    return FixedArray<T>(&(ca.unchecked_direct_index(0)[index]),
+                         4*ca.stride(),ca);
 }
 
 // Currently we are only exposing the RGBA components.
